@@ -276,7 +276,7 @@ def _reduce(j, L, counter):
 
 def _parse_unit(args):
     unit, cfg, cfg_header, ndebug = args
-    src = os.path.join(REPO, unit)
+    src = unit if os.path.isabs(unit) else os.path.join(REPO, unit)
     cmd = ['clang-14'] + clang_flags(cfg, cfg_header, ndebug) + ['-Xclang', '-ast-dump=json', src]
     p = subprocess.run(cmd, stdout=subprocess.PIPE, stderr=subprocess.PIPE)
     if p.returncode != 0:
@@ -291,7 +291,7 @@ def _parse_unit(args):
         # locate file first (stateful) by reducing; system function bodies are dropped afterwards
         n = _reduce(top, L, counter)
         infile = (n.file or '')
-        if not infile.startswith(REPO + '/'):
+        if not infile.startswith(REPO + '/') and not (os.path.isabs(unit) and infile == unit):
             nsys += 1
             if n.kind == 'FunctionDecl':
                 n.kids = [k for k in n.kids if k.kind == 'ParmVarDecl']
@@ -314,7 +314,7 @@ class Func(object):
         self.static = node.storage == 'static'
         self.inline = bool(node.inline)
         self.rettype = (node.type or '').split('(')[0].strip()
-        self.in_repo = (node.file or '').startswith(REPO + '/')
+        self.in_repo = (node.file or '').startswith(REPO + '/') or (node.file or '').startswith(os.path.join(VERIF, 'selftest'))
 
     @property
     def loc(self):
@@ -416,9 +416,15 @@ def _merge(prog, unit, decls):
                     v += 1
 
 
-def load_program(cfg, ndebug=True, verbose=False):
+def load_program(cfg, ndebug=True, verbose=False, extra_units=None):
     os.makedirs(CACHE, exist_ok=True)
-    key = '%s_%s_%s' % (tree_hash(), cfg_id(cfg), 'nd' if ndebug else 'dbg')
+    xh = ''
+    if extra_units:
+        h_ = hashlib.sha256()
+        for x in extra_units:
+            h_.update(open(x, 'rb').read())
+        xh = '_x' + h_.hexdigest()[:10]
+    key = '%s_%s_%s%s' % (tree_hash(), cfg_id(cfg), 'nd' if ndebug else 'dbg', xh)
     path = os.path.join(CACHE, key + '.pkl')
     if os.path.exists(path):
         try:
@@ -435,7 +441,7 @@ def load_program(cfg, ndebug=True, verbose=False):
     prog = Program(cfg)
     prog.units = units
     prog.unlisted = unlisted
-    jobs = [(u, cfg, hdr, ndebug) for u in units]
+    jobs = [(u, cfg, hdr, ndebug) for u in units] + [(x, cfg, hdr, ndebug) for x in (extra_units or [])]
     workers = min(int(os.environ.get('M4LINT_JOBS', '8')), len(jobs))
     with ProcessPoolExecutor(max_workers=workers) as ex:
         for unit, decls, err in ex.map(_parse_unit, jobs):
